@@ -23,7 +23,8 @@ META = {
              'ataset: multi-scale datasets with per-scale block sizes writ'
              'ten through PrecomputedIO; huge_channel: 18 and 84 MiB chann'
              'els (24-bit table offsets).'
-             " Round 12: regular label structure (labels depending on one coordinate, flat-periodic, tiled)."),
+             " Round 12: regular label structure (labels depending on one coordinate, flat-periodic, tiled)."
+             " Round 17: the object returned by encode() is compared again after the same encoder encoded two more chunks."),
     "trusted_base": ["vlib/refs/cseg_spec.py decoder/validator written from "
                      "the format description; cross-checked against a "
                      "hand-assembled file at start-up"],
@@ -252,7 +253,21 @@ def check_chunk(ctx, chunk, block, dtype_name, what, via="direct"):
                      "gives different bytes (%s)" % what)
         if block_arg != list(block):
             ctx.fail("the encoder modified its block_size argument")
+        if chunk.size <= 4096:
+            # the buffers of several encoded chunks are alive together (a
+            # caller that encodes a list of chunks, then stores them): the
+            # object returned for one chunk must not change when the same
+            # encoder encodes the next one
+            kept = enc.encode(chunk)
+            enc.encode(other)
+            enc.encode(np.ascontiguousarray(chunk.transpose(0, 3, 2, 1)))
+            if bytes(kept) != buf:
+                ctx.fail("the buffer returned for one chunk changed when "
+                         "the same encoder encoded the next chunk (%s)"
+                         % what)
     except Exception as exc:
+        if isinstance(exc, AssertionError):
+            raise
         ctx.fail("encode raised %s: %s (%s)" % (type(exc).__name__, exc,
                                                 what))
     shape = tuple(chunk.shape)
